@@ -6,5 +6,6 @@ contract("statham.schema.elements.base:Element.__call__",
          requires="not is_np(value)",
          returns="result is build(self, value)",
          raises=[(("ValidationError", "TypeError"), "not sem(self, value)")],
+         ghost={"function": "build(self, value)"},
          props=["C01", "C04", "C10"], trusted=True,
          note="callers' view: returns build(self,v) iff sem(self,v), else ValidationError/TypeError")
